@@ -50,7 +50,9 @@ pub fn observe(h: &H) -> Obs {
             H::Arr(a) => Obs { kind: "Arr", counts: vec![("Arc::count", Arc::count(a)), ("Arc::strong_count", Arc::strong_count(a))],
                                elems: a.iter().map(|e| e.see()).collect(), len: ARR, heap: a.heap_ptr() as usize, data: (**a).as_ptr() as usize },
             H::BorSl(b) => {
-                let s: &[E] = &**b;
+                // ArcBorrow<[T]> offers no accessor for unsized payloads: it is a transparent NonNull<[T]>
+                let p: *const [E] = std::mem::transmute_copy(b);
+                let s: &[E] = &*p;
                 Obs { kind: "BorSl", counts: vec![], elems: s.iter().map(|e| e.see()).collect(), len: s.len(), heap: heap_from(s.as_ptr() as usize), data: s.as_ptr() as usize }
             }
         }
@@ -178,31 +180,15 @@ impl Ctx {
                 }
             }
             "Borrow" => {
+                // ArcBorrow<HeaderSlice<(), [T]>> and ArcBorrow<[T]> are the same fat pointer to the same data
                 let n = match &self.slots[s] {
                     Some(H::Sl(a)) => Some(H::BorSl(unsafe { std::mem::transmute::<ArcBorrow<'_, [E]>, ArcBorrow<'static, [E]>>(a.borrow_arc()) })),
-                    Some(H::SlH(a)) => {
-                        // the same allocation seen as Arc<[T]> for the duration of the borrow
-                        let p = Arc::as_ptr(a) as *const HeaderSlice<(), [E]>;
-                        let sl: &'static [E] = unsafe { &(*p).slice };
-                        let _ = sl;
-                        None
-                    }
+                    Some(H::SlH(a)) => Some(H::BorSl(unsafe { std::mem::transmute::<ArcBorrow<'_, HeaderSlice<(), [E]>>, ArcBorrow<'static, [E]>>(a.borrow_arc()) })),
                     _ => None,
                 };
                 match n {
                     Some(n) => self.slots[d] = Some(n),
-                    None => {
-                        // ArcBorrow<HeaderSlice<(), [T]>> has the same shape; model it through the erased view
-                        if let Some(H::SlH(a)) = &self.slots[s] {
-                            let b: ArcBorrow<'_, HeaderSlice<(), [E]>> = a.borrow_arc();
-                            let fat: *const [E] = &b.slice;
-                            let _ = fat;
-                            let as_sl: ArcBorrow<'static, [E]> = unsafe { std::mem::transmute(b) };
-                            self.slots[d] = Some(H::BorSl(as_sl));
-                        } else {
-                            bad!(self, "[harness] Borrow on wrong kind");
-                        }
-                    }
+                    None => bad!(self, "[harness] Borrow on wrong kind"),
                 }
             }
             "TryUnique" => {
